@@ -16,6 +16,7 @@ RULE = (
     "canonical, known synonym, case-varied, truncated/extended, unknown) and identifiers that are empty or contain the "
     "delimiter, '/', '#', spaces, Unicode. One evaluation = one (converter, prefix, identifier) triple checked on expand, "
     "expand_pair, expand_reference, parse_curie, expand_all, expand_pair_all, is_curie against the linear-scan model. "
+    "Every case is checked on the same converter reached through seven histories (built at once; grown string by string with all queries issued after every mutation; split into whole records and merged; grown by case-insensitive merges; every record re-merged into itself case-insensitively; after calls that must be rejected; as by-standing input of every derivation whose results were then mutated). "
     "Non-trivial = prefix is a synonym, or the empty prefix, or a case variant / proper substring / extension of another "
     "known prefix, or the identifier contains the delimiter; distinct by hash of (records, delimiter, prefix, identifier)."
 )
